@@ -31,6 +31,7 @@ DEFAULT_PROFILE = dict(
     scale_exp=(-3, 3),
     extra_options=True,
     cons_x0=("margin", "margin", "margin", "boundary", "infeasible", "snap_only"),
+    specified_noise_size=False,
 )
 
 
@@ -221,15 +222,15 @@ def constraint(draw, coords, x0z, D, nonlinear, zs, p):
         off = {"margin": 0.3 * r, "boundary": r, "infeasible": 1.3 * r, "snap_only": 0.3 * r}[x0cls]
         spec.update(zc=[b + off * ai for b, ai in zip(base, a)], r=r)
         if x0cls == "snap_only":
-            spec.update(zc=list(base), r=draw(st.sampled_from([2e-4, 5e-4])))
+            spec.update(zc=list(base), r=draw(st.sampled_from([5e-5, 1e-4])))
     elif kind == "half":
-        b = {"margin": 0.5, "boundary": 0.0, "infeasible": -0.3, "snap_only": 3e-4}[x0cls]
+        b = {"margin": 0.5, "boundary": 0.0, "infeasible": -0.3, "snap_only": 5e-5}[x0cls]
         spec.update(zc=list(base), a=a, b=b)
     elif kind == "band":
         w = draw(st.sampled_from([0.05, 0.2, 0.6]))
         off = {"margin": 0.0, "boundary": w, "infeasible": 1.5 * w, "snap_only": 0.0}[x0cls]
         if x0cls == "snap_only":
-            w = 3e-4
+            w = 5e-5
         spec.update(zc=[b_ + off * ai for b_, ai in zip(base, a)], a=a, w=w)
     elif kind == "annulus":
         r1, r2 = r, r * draw(st.sampled_from([1.2, 2.0]))
@@ -342,6 +343,8 @@ def scenario(draw, p=None):
             opts["noise_final_samples"] = draw(st.sampled_from(p["final_samples"]))
         if mode == "declared" and draw(st.booleans()):
             opts["noise_size"] = noise["sigma"]
+        if mode == "specified" and p.get("specified_noise_size") and chance(draw, 0.2):
+            opts["noise_size"] = noise["sigma"]  # documented as ignored (with a warning) under specified noise
     fes = None
     if p["extra_options"] and chance(draw, 0.1):
         fes = draw(st.sampled_from([0, 1, 2 * D, 10]))
